@@ -93,8 +93,15 @@ def evalLine (toks : List String) : Option String := do
     | _ => "wrong"
   let isPanic (r : EvalRes (Slots cols)) : Bool := match r with | .panic => true | _ => false
   if mode == "seq" then
-    -- requests: one EvaluateMany per step (ctPreRot is not shared between calls)
-    let req := (lts.flatMap fun lt => reqMany [(lt.N1, cols, lt.vec.map (·.1))]).map (Galois.galEl nth)
+    -- requests: one EvaluateMany per step (ctPreRot is not shared between calls); the sequence
+    -- stops at the first failing Rescale (level 0)
+    let req := ((lts.foldl (fun (acc : List Int × Option Nat) lt =>
+      match acc.2 with
+      | none => acc
+      | some l =>
+        let m := min l lt.levelQ
+        (acc.1 ++ reqMany [(lt.N1, cols, lt.vec.map (·.1))], if m = 0 then none else some (m - 1)))
+      ([], some ctlvl)).1).map (Galois.galEl nth)
     let r := evalSeq O lts vv
     if isPanic r then return head ++ s!"req={showVec req} panic"
     if t = 0 then
